@@ -1,4 +1,4 @@
 CONSTANTS TF = 8 DMIN = 5 DMAX = 3 MAXSTOP = 3
 SPECIFICATION Spec
 INVARIANTS TypeOK NeverOvershoots EndsExactly StopHonoured
-PROPERTIES Progress StepBounds
+PROPERTIES Progress
